@@ -1,5 +1,6 @@
 import GateryModel.C05.LemmasInit
 import GateryModel.C05.Historical
+import GateryModel.C05.LemmasX
 /-!
 # C05 — property theorems
 
@@ -51,6 +52,47 @@ theorem C05_skipped_block_frame (ρ : List Val) (p : Prog) (B B' : BState) (top 
     (hb : build p B = some B') (hw : WF B) (hs : B.scopes = top :: rest) (hd : valAt ρ B.nodes top.full = [false]) :
     Keeps ρ top.id B B' :=
   (build_dead p B B' top rest hb hw hs hd).2.2.1
+
+/-! ### width-less variables (integer literals, `zext` / `oext`): statement-level theorems
+
+`C05_sequential` is about `build` / `run`, which do not accept the `IStmt` statements; programs with such statements are modelled by
+`buildX` / `runX` (C05/ModelX.lean, sequential semantics on integers) and tied to the code by the correspondence check. The two
+theorems below cover the part of `BaseBitVector::assign` that is specific to them.
+/- not proved (correspondence only): the program-level statement
+theorem C05_sequential_integers (hb : buildX p (initX ins) = some X) (hr : runX p ρ [] none = some (env, ienv)) :
+    outputs ρ X.core = env ∧ (outputsI ρ X).map (fun kv => ival kv.1 kv.2) = ienv.map (fun kv => ival kv.1 kv.2) -/
+-/
+
+/-- Padding a value at the MSB side with the variable's own expansion policy (zero / sign / one) - what the frontend does to the OLD
+value when a wider one is assigned inside a scope, and to a narrower operand of an assignment or comparison - preserves the integer the
+bits stand for; for every kind, target width and value (at least one bit for `SInt`). -/
+theorem C05_int_padding_preserves_integer (k : IKind) (w : Nat) (v : Val) (hv : k = .s → v ≠ []) :
+    ival k (padTo k.pol w v) = ival k v :=
+  ival_padTo k w v hv
+
+/-- One assignment to a width-less variable inside a conditional scope whose full condition evaluates to `c`, for all widths, kinds
+and values: the variable's width becomes the maximum, its bits have that width, and they stand for the new integer if `c` and for the
+old integer otherwise. -/
+theorem C05_int_conditional_assign (ρ : List Val) (X X' : XState) (x inn wi : Nat) (pi : Pol) (s : ISig) (sc : Scope)
+    (rest : List Scope) (c : Bool) (vold vnew : Val)
+    (h : assignInt X x inn wi pi = some X') (hs : X.ivars[x]? = some s)
+    (hsc : X.core.scopes = sc :: rest) (hgt : sc.id > s.initScope)
+    (hfull : sc.full < X.core.nodes.size) (hc : valAt ρ X.core.nodes sc.full = [c])
+    (hinn : inn < X.core.nodes.size) (hold : s.driver < X.core.nodes.size)
+    (hvn : valAt ρ X.core.nodes inn = vnew) (hln : vnew.length = wi)
+    (hvo : valAt ρ X.core.nodes s.driver = vold) (hlo : vold.length = s.width)
+    (hw1 : 1 ≤ s.width) (hw2 : 1 ≤ wi) :
+    ∃ s', X'.ivars[x]? = some s' ∧ s'.kind = s.kind ∧ s'.width = max wi s.width ∧
+      (valAt ρ X'.core.nodes s'.driver).length = s'.width ∧
+      ival s.kind (valAt ρ X'.core.nodes s'.driver) = if c then ival s.kind vnew else ival s.kind vold :=
+  assignInt_conditional X X' x inn wi pi s sc rest c vold vnew h hs hsc hgt hfull hc hinn hold hvn hln hvo hlo hw1 hw2
+
+-- non-vacuity: `SInt t{-3}; IF (a) t = 100;` is accepted, runs, and (a = 0) the padded old value still stands for -3
+def intSample : Prog :=
+  .istmt (.declLit .s (-3)) (.ifS (.read 0 []) (.istmt (.assignLit 0 100) .done) .done)
+example : (buildX intSample (initX [.bit])).isSome = true ∧
+    (runX intSample [[false]] [] none).map (fun r => r.2.map fun kv => ival kv.1 kv.2) = some [-3] := by decide
+example : ival .s (padTo IKind.s.pol 8 [true, false, true]) = -3 := by decide
 
 /-! ### the former witness: `Bit x = '0'; IF (a) x = '1'; ELSE IF (a) x = '0'; ELSE x = '1';` -/
 
